@@ -1,9 +1,11 @@
 /* Harness-side API of the seqcc engine (calls are recognised by the translator). */
 #ifndef VF_API_H_
 #define VF_API_H_
-extern void vf_assert (int c);        /* property assertion */
+extern void vf_assert_at (int c, int line);
+#define vf_assert(c) vf_assert_at ((c), __LINE__)        /* property assertion (reported with its source line) */
 extern void vf_assume (int c);
 extern void vf_yield (void);          /* a point where a context switch may happen */
-extern unsigned vf_nondet (void);     /* a solver-chosen value */
+extern unsigned vf_nondet (void);     /* a solver-chosen value (also a scheduling point) */
+extern unsigned vf_nondet_nv (void);  /* a solver-chosen value, no scheduling point */
 extern unsigned vf_now_ge (long s, long ns);   /* virtual clock >= (s, ns)? */
 #endif
